@@ -324,7 +324,12 @@ def unit_cmddim(twin=False):
             if any(x.name.endswith("badsubscr") for x in U.iter_events(s)):
                 nd["err"] += 1
                 if count_id is not None:
-                    U.discharge_valid(r, "subscript.bad_subscript_only_for_a_negative_bound_or_more_than_maxdims_subscripts", hy, tm.or_(tm.lt(e, ZI), tm.le(MAXD, old[count_id])))
+                    # ... or for an element count (times the element size) that does not fit a long: extents whose product wraps around cannot be stored
+                    big = tm.FALSE
+                    if prod_id is not None:
+                        LIM = tm.num((2 ** 63 - 1) // 8, "I")
+                        big = tm.lt(tm.idiv(LIM, old[prod_id]), tm.add(e, tm.num(1, "I")))
+                    U.discharge_valid(r, "subscript.bad_subscript_only_for_a_negative_bound_more_than_maxdims_subscripts_or_an_element_count_that_does_not_fit", hy + ([tm.le(tm.num(1, "I"), old[prod_id])] if prod_id is not None else []), tm.or_(tm.lt(e, ZI), tm.le(MAXD, old[count_id]), big))
             continue
         if s.status not in ("run", "cont"):
             continue
